@@ -97,7 +97,9 @@ def run_case(ctx, i):
     rng = gen.rng_for(ctx.seed, NO, i)
     if not ctx.begin("inv:%d" % i):
         return
-    case = gen_aa.imaging_case(aa, rng)
+    case = gen_aa.imaging_case(aa, rng, noise_covariance=True)
+    if case["noise_covariance_matrix"] is not None:
+        ctx.classes["dataset_with_full_noise_covariance_matrix"] += 1
     objs, desc = gen_aa.linear_objects(aa, rng, case, overrides=True)
     diag = float(rng.choice([1e-8, 1e-3]))
     W = dict(mask=case["m"], kernel=case["k"], normalized_psf=case["normalized"], objects=desc, diag=diag, sub=case["sub"],
